@@ -76,7 +76,17 @@ def classify_c01(c, m):
     init = c["store"]
     elsewhere = any(k not in ("None", worker) and x in [list(t) for t in v] for k, v in init.items())
     here = any(k in ("None", worker) and x in [list(t) for t in v] for k, v in init.items())
-    return "C01:residue-only-in-another-workers-own-pool" if elsewhere and not here else "C01:state-unavailable"
+    if elsewhere and not here:
+        return "C01:residue-only-in-another-workers-own-pool"
+    # node.py derives the reuse scope from ONE keyword per spawner (lxc: swarm, remote: cluster); the other keyword is
+    # ignored, so a worker reuses setup of a worker whose pool lies behind a scope that is disabled
+    w = c["run"].workers[m[2]]
+    scopes = c["spec"]["node_params"].get("pool_scope", "").split()
+    ignored = {"remote": "swarm", "lxc": "cluster"}.get(w.params.get("nets_spawner"))
+    holders = c["run"].c01_detail.get((m[2], m[3], tuple(x)), [])
+    if ignored and ignored not in scopes and any(between == ignored for _, between in holders):
+        return "C01:reuse-scope-ignores-disabled-pool-scope"
+    return "C01:state-unavailable"
 
 
 def scope_of(c, node, w):
